@@ -43,9 +43,9 @@ def _spell(dims, order, how):
     return [dims[i] if k % 2 else i for k, i in enumerate(order)]
 
 
-def permute(ctx, shape):
+def permute(ctx, shape, dimnames=None):
     """transpose with every permutation (names, positions, mixed; list / varargs), T, swapaxes, rollaxis, and inverse compositions"""
-    a, ref, attrs = _build(ctx, shape)
+    a, ref, attrs = _build(ctx, shape, dims=dimnames)
     nd = len(shape)
     dims = list(ref.dims)
     oks = []
@@ -310,5 +310,7 @@ def templates():
         add('broadcast-arrays-singleton-%d' % k, 'broadcast_arrays', cost=1, specs=specs)
     for shape in ([2, 3], [2, 3, 2], [2, 1, 3]):
         add('second-array-%s' % 'x'.join(map(str, shape)), 'second_array', cost=2, shape=shape)
+    for names in (['t', 'y', 'x'], ['lon', 'lat', 'time']):
+        add('permute-dimnames-%s' % ''.join(n[0] for n in names), 'permute', cost=2, shape=[2, 3, 2], dimnames=names)
     add('broadcast-arrays-mismatch', 'broadcast_mismatch', cost=1)
     return ts
